@@ -653,8 +653,25 @@ def run_repo_args(case, out, fail, sc):
             listed[n] = ccfg
     given = {n: m.FunctionCluster(config={"name": n, "storage": {"type": "filesystem", "path": sc.path("arg_" + n)}})
              for n in rng.sample(names, rng.randint(1, 2))}
+    if case["idx"] % 3 == 0:
+        given = {}  # (an explicit argument that gives nothing: every listed name resolves to nothing)
     repo = m.ConfigurationRepository(config={"name": "r", "base_dir": cfgdir, "clusters": listed}, clusters=given)
     e1 = m.Environment(name="e", repos=[repo])
+    if case["idx"] % 3 == 1:
+        # ... the same one level up: an environment whose configuration lists a repository, built with an explicit (empty, or
+        # other) list of repositories
+        listing = {"name": "e0", "base_dir": cfgdir, "repos": [{"name": "r0", "base_dir": cfgdir, "clusters": listed}]}
+        e0 = m.Environment(config=listing, repos=[repo] if case["idx"] % 2 else [])
+        out["obs"]["environments_with_an_explicit_repos_argument"] += 1
+        for n in names:
+            cl = e0.get_cluster(n)
+            got = None if cl is None else os.path.basename(str(cl.storage.to_dict().get("path")))
+            want = ("arg_" + n) if (n in given and case["idx"] % 2) else None
+            out["obs"]["names_resolved"] += 1
+            if got != want:
+                fail("an explicit argument does not override the configuration (repositories of an environment)",
+                     "environment listing a repository with clusters %s, built with repos=%s: name %r resolves to %s, expected %s"
+                     % (sorted(listed), "[repository with %s]" % sorted(given) if case["idx"] % 2 else "[]", n, got, want))
     e2 = m.Environment(json.loads(json.dumps(e1.to_dict())))
     out["obs"]["repositories_with_an_explicit_clusters_argument"] += 1
     for which, e in (("the environment", e1), ("the environment rebuilt from its dump", e2)):
